@@ -345,6 +345,17 @@ func genC09(tier string, r *rng) {
 			emitUp(hdrCfg0, req)
 		}
 	}
+	// header lines with an EMPTY name (the colon is the first byte), with blanks before the colon, alone
+	for _, eol := range []string{"\r\n", "\n"} {
+		for pos := 0; pos <= len(base); pos += 2 {
+			// (no leading blank: net/http would read that as a folded continuation of the line before)
+			for _, line := range []string{": x", ":", ":::", ": "} {
+				hs := append(append(append([]hdr{}, base[:pos]...), hdr{"", ""}), base[pos:]...)
+				req := bytes.Replace(buildReq("GET", "/ws", "HTTP/1.1", hs, eol), []byte(eol+":"+eol), []byte(eol+line+eol), 1)
+				emitUp("-", req)
+			}
+		}
+	}
 	// bytes that are NOT blanks glued to the edges of mandatory header names and values (only SP and HTAB
 	// may be ignored): vertical tab, form feed, CR, NEL (U+0085), NBSP (U+00A0), NUL
 	for i, nm := range names {
@@ -369,7 +380,10 @@ func genC09(tier string, r *rng) {
 	// extensions: negotiation through wsflate, deprecated selector
 	extVals := []string{" permessage-deflate", " permessage-deflate; client_max_window_bits", " permessage-deflate; server_max_window_bits=10, permessage-deflate",
 		" x-foo, permessage-deflate; server_no_context_takeover", " permessage-deflate; unknown=1", " permessage-deflate; client_max_window_bits=7",
-		" permessage-deflate; client_max_window_bits=\"10\"", " permessage-deflate;", " ;", " a;b=c, d", " a; b=\"c\\\"d\"", " a; b=\"x\\y\"", "", " a b"}
+		" permessage-deflate; client_max_window_bits=\"10\"", " permessage-deflate;", " ;", " a;b=c, d", " a; b=\"c\\\"d\"", " a; b=\"x\\y\"", "", " a b",
+		// an offer the negotiator objects to FOLLOWED by acceptable ones in the same line: the objection stands
+		" permessage-deflate; server_max_window_bits=7, permessage-deflate", " permessage-deflate; unknown=1, permessage-deflate, x-foo",
+		" permessage-deflate; client_max_window_bits=16, permessage-deflate; client_max_window_bits", " x-foo, permessage-deflate; server_no_context_takeover=1, permessage-deflate"}
 	extCfgs := []string{"neg:0;0;0;0", "neg:1;1;12;10", "ext:" + hx([]byte("permessage-deflate")), "ext:" + hx([]byte("a")) + "|" + hx([]byte("d")), "-"}
 	for _, ec := range extCfgs {
 		for _, ev := range extVals {
@@ -393,7 +407,13 @@ func genC09(tier string, r *rng) {
 	hdrCfg := "hdr:" + hx([]byte("X-Server: t\r\n"))
 	rej4 := "r0:" + hx([]byte("no status chosen")) + ":" + hx([]byte("X-Why: unsaid\r\n"))
 	rej5 := "r0:" + hx([]byte("")) + ":-"
+	// reasons ending in a line break: the body is exactly the text the Content-Length was computed from
+	rej6 := "403:" + hx([]byte("denied\n")) + ":-"
+	rej7 := "r0:" + hx([]byte("two lines\r\nsecond\r\n")) + ":" + hx([]byte("X-Why: nl\r\n"))
 	cbs := []string{"onreq:" + rej4, "before:r:" + rej5, "onhost:" + rej4, "onhdr:" + hx([]byte("X-A")) + ":" + rej4, "onreq:" + rej1, "onhost:" + rej2, "onhdr:" + hx([]byte("X-A")) + ":" + rej3, "before:r:" + rej1, "before:h:" + hx([]byte("Set-Cookie: a=b\r\n")), hdrCfg}
+	for _, cfg := range []string{"onreq:" + rej6, "onhost:" + rej7, "before:r:" + rej6, "onhdr:" + hx([]byte("X-A")) + ":" + rej7} {
+		emitUp(cfg, buildReq("GET", "/", "HTTP/1.1", append([]hdr{{"X-A", " 1"}}, base...), "\r\n"))
+	}
 	for mask := 0; mask < 1<<uint(len(cbs)); mask++ {
 		if tier == "quick" && mask%3 != 0 && mask > 8 {
 			continue
@@ -495,6 +515,25 @@ func genHsCut(tier string, r *rng) {
 			for _, fin := range []string{"E", "F"} {
 				k := []int{0, 1, 7, 16}[r.intn(4)]
 				run(fmt.Sprintf("up - %s %d %s", hx(req[:l]), k, fin))
+			}
+		}
+	}
+	// the client side: a valid 101 (optional headers AFTER the mandatory ones, CRLF and LF) cut at every offset -
+	// the handshake is an error until the blank line has arrived
+	rb := baseRespHeaders()
+	resps := [][]byte{
+		buildResp("HTTP/1.1 101 Switching Protocols", rb, "\r\n", nil),
+		buildResp("HTTP/1.1 101 Switching Protocols", append(append([]hdr{}, rb...), hdr{"Server", " t"}, hdr{"X-Trailing", " " + strings.Repeat("z", 20)}), "\r\n", nil),
+		buildResp("HTTP/1.1 101 Switching Protocols", append(append([]hdr{}, rb...), hdr{"Date", " today"}), "\n", nil),
+	}
+	for _, resp := range resps {
+		for l := 0; l < len(resp); l++ {
+			boundary := l > 0 && resp[l-1] == '\n'
+			if tier == "quick" && !boundary && l%4 != 0 && l < len(resp)-6 {
+				continue
+			}
+			for _, fin := range []string{"E", "F"} {
+				run(fmt.Sprintf("dl - %s %s %d %s", hx([]byte("ws://example.com/x")), hx(resp[:l]), []int{0, 1, 7, 16}[r.intn(4)], fin))
 			}
 		}
 	}
